@@ -409,6 +409,17 @@ Theorem C11_zoom_assembly_bigwig : forall fp o outs zsizes zooms,
 Proof. exact zoom_assembly_bigwig. Qed.
 Print Assumptions C11_zoom_assembly_bigwig.
 
+(* What the second-pass machine assumes of a level's OUTER staging buffer (the assembly step appends the level's
+   store to the file) is C12's delivery theorem for the two consumer programs write_zoom_vals runs on it: level 0
+   `switch(file)` first .. `await_real_file()` after the drop; the others `expect_closed_write(&mut file)`. *)
+Theorem C11_zoom_outer_contract : forall (expect : bool) (d0 : bytes) (ws : list bytes) sched,
+  let prog := if expect then [TempBuf.CExpect] else [TempBuf.CSwitch; TempBuf.CAwait] in
+  let b := TempBuf.run d0 sched (TempBuf.init (map TempBuf.PWrite ws) prog) in
+  TempBuf.panicked b = false /\
+  (TempBuf.terminal b = true -> TempBuf.c_dest b = Some (d0 ++ concat ws)).
+Proof. exact zoom_outer_contract. Qed.
+Print Assumptions C11_zoom_outer_contract.
+
 (* no deadlock, final assembly included: when the sequential model can write the zoom region, every
    reachable state that is not terminal has an enabled step, and every schedule prefix can be completed into
    a run that ends with the sequential bytes and directory *)
